@@ -139,11 +139,16 @@ impl Frame {
             buf
         };
 
-        // Read the payload
-        let mut payload: Vec<u8> = vec![0; length as usize];
-        stream
-            .read_exact(&mut payload)
+        // Read the payload; the buffer grows as bytes arrive instead of being allocated from the claimed length
+        let mut payload: Vec<u8> = Vec::new();
+        let read = stream
+            .by_ref()
+            .take(length)
+            .read_to_end(&mut payload)
             .map_err(|_| WebsocketError::ReadError)?;
+        if read as u64 != length {
+            return Err(WebsocketError::ReadError);
+        }
 
         // Unmask the payload
         payload
